@@ -18,7 +18,7 @@ import torch.nn.functional as F
 import inferno
 from inferno.neural import LinearDense, LinearDirect, LinearLateral, Conv2D, DeltaCurrent, DeltaPlusCurrent
 
-from mc.common import Tally
+from mc.common import Tally, Guard
 from mc.explore import explore
 from mc.pool import run_shards
 
@@ -84,7 +84,10 @@ def linear_shard(kind, tier):
                         args = (x,) if inj is None else (x, torch.tensor(inj).reshape(B, *inshape))
                         tally.add("evaluations")
                         try:
+                            g = Guard(*args)
                             out = c(*args)
+                            g.release(tally, f"input-mutated:{kind}", {**cfg, "input": xs})
+                            x = torch.tensor(xs, dtype=torch.bool).reshape(B, *inshape)
                         except Exception as ex:
                             tally.violation(f"exception:forward:{kind}:{type(ex).__name__}", {**cfg, "input": xs}, repr(ex))
                             break
